@@ -111,6 +111,7 @@ func loadEngine() (*Engine, error) {
 	sort.Strings(e.missing)
 	// type ids for every named type of the repo and go/ast (stable order)
 	e.registerTypes()
+	e.preregisterHeaps()
 	return e, nil
 }
 
@@ -149,6 +150,60 @@ func (e *Engine) registerTypes() {
 	sort.Strings(names)
 	for _, n := range names {
 		e.typeIDTerm(byName[n])
+	}
+}
+
+// groupHeaps: registered heaps belonging to a named heap group (spec: heapgroup).
+func (e *Engine) groupHeaps(name string) []string {
+	prefs, ok := e.cs.Spec.Groups[name]
+	if !ok {
+		panic(trErr("unknown heap group " + name))
+	}
+	var out []string
+	for h := range e.heaps {
+		for _, p := range prefs {
+			if strings.HasPrefix(h, p) {
+				out = append(out, h)
+				break
+			}
+		}
+	}
+	sort.Strings(out)
+	return out
+}
+
+// preregisterHeaps declares the field/element heaps of every struct type of the
+// given packages up front, so that heap groups and havocs are complete.
+func (e *Engine) preregisterHeaps() {
+	for _, p := range e.prog.AllPackages() {
+		path := p.Pkg.Path()
+		if !(strings.HasPrefix(path, e.modPath) || path == "go/ast") {
+			continue
+		}
+		sc := p.Pkg.Scope()
+		for _, n := range sc.Names() {
+			tn, ok := sc.Lookup(n).(*types.TypeName)
+			if !ok || tn.IsAlias() {
+				continue
+			}
+			t := tn.Type()
+			if sl, ok := t.Underlying().(*types.Slice); ok {
+				e.elemHeap(sl.Elem())
+			}
+			info := e.sorts.structInfoOf(t)
+			if info == nil {
+				continue
+			}
+			for i := 0; i < info.st.NumFields(); i++ {
+				e.fieldHeap(info, i)
+				switch ft := info.st.Field(i).Type().Underlying().(type) {
+				case *types.Slice:
+					e.elemHeap(ft.Elem())
+				case *types.Map:
+					e.mapHeaps(ft)
+				}
+			}
+		}
 	}
 }
 
